@@ -1,4 +1,5 @@
 """C01 - composeinfo survives a write/read cycle unchanged."""
+import histories
 from productmd.composeinfo import ComposeInfo, Variant, COMPOSE_TYPES, LABEL_NAMES, VARIANT_TYPES
 from productmd.common import RELEASE_TYPES
 
@@ -91,7 +92,11 @@ def release_facts(sym, tag, got, want, lowered_type):
     sym.check(tag + ".type", got.type == lowered_type)
 
 
-def roundtrip(sym, shape, label_name, layered, paths_for, n):
+def roundtrip(sym, shape, label_name, layered, paths_for, n, history=False):
+    """history: another compose description was written and read by other objects first, and the text that is checked was already
+    loaded once into an object that the caller then edited in place"""
+    if history:
+        histories.warm("composeinfo")
     try:
         ci, objs = build(sym, shape, label_name, layered, paths_for, n)
         text = ci.dumps()
@@ -99,6 +104,10 @@ def roundtrip(sym, shape, label_name, layered, paths_for, n):
         # the library does not agree to build / write this description (C06 decides whether that is right)
         return
     sym.cover("written")
+    if history:
+        first = ComposeInfo()
+        first.loads(text)
+        histories.scribble_composeinfo(first)
     back = ComposeInfo()
     back.loads(text)
     sym.cover("reloaded")
@@ -199,7 +208,8 @@ def jobs(tier, seed):
             combos = [(labels[(k + si) % len(labels)], False), (labels[(k + si + 4) % len(labels)], True), (None, si % 2 == 0)]
         for ci, (lab, lay) in enumerate(combos):
             out.append({"harness": "roundtrip", "params": {"shape": shape, "label_name": lab, "layered": lay,
-                                                          "paths_for": _paths(shape, k + si + ci), "n": 4 if big else 3},
+                                                          "paths_for": _paths(shape, k + si + ci), "n": 4 if big else 3,
+                                                          "history": (si + ci + seed) % 2 == 1},
                         "validate_every": 40})
     return out
 
@@ -209,6 +219,8 @@ META = {
     "assumptions": [
         "JSON text layer replaced by the DocText stub (psx/stubs.py): ordered skeleton + normalised formatting arguments; "
         "contract: stdlib json round-trips str/int/bool/None/list/dict-with-str-keys exactly",
+        "in every other job a history precedes the scenario (harness/histories.py): another document of the format is written and read by other objects, and the checked "
+        "text is first loaded into an object that is then edited in place",
         "forest shapes from the catalogue in harness/C01.py (up to 4 variants, depth 3, dashed top-level UID, layered-product variants, ids re-used at several levels); "
         "ids, UIDs and arch names are concrete, all other fields symbolic",
         "per job a rotating subset of (path category, arch) entries is filled, always including one entry for an arch outside the variant's arch set; "
